@@ -62,6 +62,7 @@ class Run(object):
         if g is None:
             exc = self.exc if fault == 'oserror' else self.exc_arb
             g = CFG(c, exc, genexit=genexit, injected=injected)
+            g.run = self
             self._cfgs[key] = g
             self.stats['cfg_nodes'] += len(g.nodes)
             self.stats['functions'].add('%s|%s' % c.key)
